@@ -304,5 +304,72 @@ where
         Some(&node.item)
     }
 }
+
+#[verifier::external_body]
+fn gen_priority() -> Priority { unimplemented!() }   // R10: `unsafe { RNG.next_raw() as Priority }` on a `static mut` — trusted, result unconstrained
+
+pub trait TreapItemFresh: TreapItem {
+    // a freshly created item (as passed to insert) is a singleton: no pending modification, aggregate = own, size 1
+    spec fn fresh(&self) -> bool;
+    proof fn law_fresh(&self) requires self.fresh() ensures self.pend() == 0, self.agg() == self.own(), self.sz() == 1;
+}
+
+impl<T> TreapNode<T> {
+    pub fn new(item: T) -> (r: Self)
+        ensures r.item == item, r.left.is_none(), r.right.is_none(),
+    {
+        Self {
+            item,
+            priority: gen_priority(),
+            left: None,
+            right: None,
+        }
+    }
+}
+
+impl<T> Treap<T>
+where
+    T: TreapItem + TreapItemSized + TreapItemFresh,
+{
+    pub fn insert_at(&mut self, pos: usize, item: T)
+        requires owf(old(self).root), pos <= oelems(old(self).root).len(), item.fresh(),
+        ensures owf(final(self).root), oelems(final(self).root) == oelems(old(self).root).insert(pos as int, item.own()),
+    {
+        let ghost e0 = oelems(self.root);
+        let (left, right) = TreapNode::split_at(self.root.take(), pos);
+        let ghost it = item;
+        let nn = TreapNode::new(item);
+        proof {
+            it.law_fresh();
+            lemma_shift_zero(Seq::<int>::empty());
+            assert(nelems(nn) =~= seq![it.own()]);
+            lemma_sum_one(it.own());
+            assert(nwf(nn));
+        }
+        self.root = TreapNode::merge(TreapNode::merge(left, Some(Box::new(nn))), right);
+        proof { assert(oelems(self.root) =~= e0.insert(pos as int, it.own())); }
+    }
+
+    pub fn remove_at(&mut self, pos: usize) -> (res: T)
+        requires owf(old(self).root), pos < oelems(old(self).root).len(),
+        ensures owf(final(self).root), oelems(final(self).root) == oelems(old(self).root).remove(pos as int),
+            res.own() == oelems(old(self).root)[pos as int],
+    {
+        let ghost e0 = oelems(self.root);
+        let (t1, t23) = TreapNode::split_at(self.root.take(), pos);
+        let (t2, t3) = TreapNode::split_at(t23, 1);
+        self.root = TreapNode::merge(t1, t3);
+        proof {
+            assert(oelems(self.root) =~= e0.remove(pos as int));
+            assert(oelems(t2).len() == 1);
+            let n2 = *t2.unwrap();
+            // a one-element tree: no children, so its own value is the element
+            assert(nelems(n2).len() == 1);
+            assert(oelems(n2.left).len() == 0 && oelems(n2.right).len() == 0);
+            assert(nelems(n2)[0] == n2.item.own());
+        }
+        t2.unwrap().item
+    }
+}
 } // verus!
 fn main() {}
